@@ -17,3 +17,38 @@ Theorem C08_cancel_guess_hits_own_slot :
     Inv N x -> slot_of (thr x t) = Some (v, slot) -> etail x = g + 1 -> g mod N = slot mod N -> etail x <= head x + N -> g = slot.
 Proof. exact cancel_guess_hits_own_slot. Qed.
 Print Assumptions C08_cancel_guess_hits_own_slot.
+
+(* ---- the whole reserve layer: single producer (thread 0) issuing reserve / send-reserved / cancel in any order and any number, any
+   number of consumer threads, EVERY interleaving (`wf_ev`: reservation operations come from thread 0, the other threads consume
+   or ask the length; plain sends by the producer are outside this theorem - they are in the lock-step suites) ---- *)
+From RM Require Import ReserveInv.
+
+(* the two index-guessing CAS loops never act on a slot that is not the reservation's own *)
+Theorem C08_wrong_guess_unreachable :
+  forall N, 0 < N -> forall evs, Forall wf_ev evs -> bad (fold_left (reexec N idz idz) evs (reinit_at 0)) = false.
+Proof. exact reserve_never_bad. Qed.
+Print Assumptions C08_wrong_guess_unreachable.
+
+(* sent reservations are delivered exactly once, in the order their sends succeeded, with the content written into the slot;
+   cancelled ones (never accepted) are never delivered *)
+Theorem C08_sent_delivered_exactly_once_cancelled_never :
+  forall N, 0 < N -> forall evs, Forall wf_ev evs ->
+    let x := ring (fold_left (reexec N idz idz) evs (reinit_at 0)) in
+    yielded_of (log x) = firstn (length (yielded_of (log x))) (accepted_of (log x)).
+Proof. exact reserve_exactly_once. Qed.
+Print Assumptions C08_sent_delivered_exactly_once_cancelled_never.
+
+(* none leak: once every reservation was sent or cancelled and nobody is inside an operation, nothing is reserved any more *)
+Theorem C08_no_leak :
+  forall N, 0 < N -> forall evs, Forall wf_ev evs ->
+    let s := fold_left (reexec N idz idz) evs (reinit_at 0) in
+    (forall u, thr (ring s) u = Idle) -> etail (ring s) = tail (ring s) /\ dhead (ring s) = head (ring s).
+Proof. exact reserve_no_leak. Qed.
+Print Assumptions C08_no_leak.
+
+(* non-vacuity: reserve 3, cancel the last, send the first two, consume: [100; 101] delivered, 102 never *)
+Example C08_nonvacuous :
+  let progs := [[RoReserve 0 100; RoReserve 1 101; RoReserve 2 102; RoCancel 2; RoSend 0; RoSend 1]; [RoRing OpCons; RoRing OpCons; RoRing OpCons]] in
+  let s := fst (rerun 4 idz idz (reinit_at 0) (fun t => nth t progs []) (repeat 0%nat 30 ++ repeat 1%nat 20)) in
+  (yielded_of (log (ring s)), rejected_of (log (ring s)), bad s, etail (ring s) - tail (ring s)) = ([100; 101], [102], false, 0).
+Proof. vm_compute. reflexivity. Qed.
